@@ -1174,6 +1174,8 @@ class Interp:
             return d.signum(v)
         if name == "clamp":
             lo, hi = args
+            if hasattr(d, "clamp"):
+                return d.clamp(v, lo, hi)      # bit-precise domain: core's clamp lets a NaN through, min/max drop it
             return d.fmin(d.fmax(v, lo), hi)
         if name == "is_nan":
             return d.is_nan(v)
